@@ -132,7 +132,9 @@ def _serialize_region_fits(region):
         if param in ('center', 'vertices'):
             x, y = value.xy
         elif param == 'angle':
-            rotang = value
+            # the ROTANG column of a FITS region table is in degrees
+            # (also: not every angular unit has a FITS unit string)
+            rotang = value.to(u.deg)
         else:
             # ellipse region is defined by full axis lengths, but
             # FITS regions file uses semi-axis lengths
